@@ -11,14 +11,51 @@ values they are asked about and must never see a non-instance of their bound.
 import random
 import sys
 
-from lib import xhrun
+from lib import runner, xhrun
 from xh import gen
 
 PID = "C10"
-INT_PREDS = ["x > {a}", "x < {a}", "x % 2 == 0", "x == {a}", "x >= {a} and x < {b}", "x % 3 == 1", "x != {a}", "x + {a} > 2 * {b}"]
-STR_PREDS = ["len(x) > {c}", "x.startswith('a')", "x == 'ab'", "'b' in x", "x.endswith('c')", "len(x) == {c}"]
+# (the last ones return a truthy / falsy NON-bool: a condition holds when its result is true, whatever its type)
+INT_PREDS = ["x > {a}", "x < {a}", "x % 2 == 0", "x == {a}", "x >= {a} and x < {b}", "x % 3 == 1", "x != {a}", "x + {a} > 2 * {b}", "x % 3", "x - {a}"]
+STR_PREDS = ["len(x) > {c}", "x.startswith('a')", "x == 'ab'", "'b' in x", "x.endswith('c')", "len(x) == {c}", "len(x)"]
 OBJ_PREDS = ["x == {a}", "x is None", "isinstance(x, int) and x > {a}", "isinstance(x, str) and len(x) > {c}"]
 BOOL_PREDS = ["x", "not x"]
+
+
+KNOWN_SHIELD = "C10-declined-dependent-shields-dominated"
+
+
+def _native_shield():
+    """witness: A(x: Dependent[int, p], y: object), B(x: object, y: int), D(x: int, y: object); p false: A is as if absent, B and D are
+    unordered -> ambiguity expected; the real function runs B (D stays ranked below the group A shares with B)"""
+    from ovld import Dependent, Ovld
+
+    def p(v):
+        return v > 100
+
+    def ma(x: Dependent[int, p], y: object):
+        return "A"
+
+    def mb(x: object, y: int):
+        return "B"
+
+    def md(x: int, y: object):
+        return "D"
+    with_a, without_a = Ovld(), Ovld()
+    for fn in (ma, mb, md):
+        with_a.register(fn)
+    for fn in (mb, md):
+        without_a.register(fn)
+
+    def out(f):
+        try:
+            return f(5, 5)
+        except TypeError as e:
+            return "AMB" if str(e).startswith("Ambiguous") else "TypeError"
+    return out(without_a) == "AMB" and out(with_a) != "AMB"
+
+
+NATIVE_WITNESSES = {"c10_declined_dependent_shields": _native_shield}
 
 
 def gen_harnesses(tier, seed):
@@ -82,7 +119,9 @@ def gen_harnesses(tier, seed):
         src = gen.one_position_module(methods, ["", "a", "ab", "abc", [], [1], [1, 2], [1, 2, 3], 0, (1,), ()], checks,
                                       prelude="from ovld import dependent_check\n\n@dependent_check\ndef Shorter(value: object, n):\n    return len(value) < n\n")
         out.append((f"c10_samecond_{i}", src, dict(family="one parametrised condition under two bounds", methods=methods)))
-    from props.c11 import tuple_element_modules
+    from props.c11 import single_value_literal_module, tuple_element_modules
+    n_, src_, meta_ = single_value_literal_module()
+    out.append((f"c10_{n_}", src_, dict(meta_, family="a single value-dependent value that is not an int / str / float")))
     out.extend((f"c10_{n_}", src_, dict(meta_, family="value-dependent element types of tuple[...]")) for n_, src_, meta_ in tuple_element_modules())
     G = 8 if tier == "quick" else 40
     for i in range(G):
@@ -90,6 +129,10 @@ def gen_harnesses(tier, seed):
         p1 = rng.choice(INT_PREDS).format(a=a, b=a + 3)
         src = gen.mixed_group_module(p1, prio_dep=i % 2, mirrored=(i // 2) % 2 == 1)
         out.append((f"c10_mixed_{i}", src, dict(family="static and dependent method unordered in one rank (two positions)", p=p1)))
+        if i < 4 and KNOWN_SHIELD not in runner.active_known_ids(PID):
+            # (recorded finding: the modules of this family are generated only while the finding is not listed)
+            src = gen.mixed_group_module(p1, prio_dep=i % 2, mirrored=(i // 2) % 2 == 1, dominated=True)
+            out.append((f"c10_mixed_dominated_{i}", src, dict(family="a method dominated only by a declined dependent method", p=p1)))
     M = 16 if tier == "quick" else 120
     for i in range(M):
         a, b = rng.randint(-3, 10), rng.randint(-3, 10)
